@@ -13,9 +13,9 @@ Open Scope Z_scope.
     the string / key / list / set / hash families) and argument list a script can pass
     (valid UTF-8), outside the classes of [known] the executor answers the reply and leaves
     the database that the direct handler does.  The classes: empty key (SET GET INCR
-    INCRBY), SET with GET / KEEPTTL / NX+XX, DECRBY i64::MIN, EXPIRE with a count <= 0, TTL
-    of a key that has a deadline, TYPE (status vs bulk: equal as Lua values,
-    [c12_parity_type]), RENAMENX of an existing key, DBSIZE / FLUSHDB with extra arguments. *)
+    INCRBY), SET with GET / KEEPTTL / NX+XX, TYPE (status vs bulk: equal as Lua values,
+    [c12_parity_type]), DBSIZE / FLUSHDB with extra arguments.  (DECRBY i64::MIN, EXPIRE <= 0,
+    TTL and RENAMENX were classes until the repairs 64d6383 and e21bda2; they are now covered.) *)
 Theorem c12_parity :
   forall now d nm args,
   forallb utf8_valid (nm :: args) = true ->
@@ -38,8 +38,11 @@ Theorem c12_call_same_as_direct :
   forall now d keys argv pc nm args r d',
   forallb utf8_valid (nm :: args) = true ->
   In (upper nm) Exec.catalogue ->
-  known now d (upper nm) args = false ->
-  exec_db now d (upper nm) (bulks (nm :: args)) None = Some (r, d') ->
+  (* the database both paths work on: after the lazy expiry that precedes every command,
+     sent directly or called from a script (bdd75e8) *)
+  let d0 := fst (expire_before now d (upper nm) (bulks (nm :: args))) in
+  known now d0 (upper nm) args = false ->
+  exec_db now d0 (upper nm) (bulks (nm :: args)) None = Some (r, d') ->
   run_script now d keys argv (single_call pc (nm :: args)) =
     (match resp_to_lua pc r with CVal v => lua_to_resp v | CErr => r_err end, d').
 Proof. exact call_same_as_direct. Qed.
@@ -50,15 +53,6 @@ Definition d_kt : db := set_value 0 empty_db (bs "k") (VStr (bs "v")) (Some 1005
 Definition both (now : Z) (d : db) (l : list bytes) : (frame * db) * option (frame * db) :=
   (exec_run now d (bulks l) None, match l with nm :: _ => exec_db now d (upper nm) (bulks l) None | [] => None end).
 
-Example c12_parity_expire_refuted :      (* EXPIRE k 0: the handler deletes, the executor sets a deadline *)
-  both 0 d_k [bs "EXPIRE"; bs "k"; bs "0"] =
-    ((FInt 1, index_set (put_entry d_k (bs "k") {| e_val := VStr (bs "v"); e_exp := Some 0 |}) (bs "k") 0),
-     Some (FInt 1, empty_db)).
-Proof. vm_compute. reflexivity. Qed.
-Example c12_parity_expire_negative_refuted :
-  fst (fst (both 0 d_k [bs "EXPIRE"; bs "k"; bs "-1"])) = r_err /\
-  snd (both 0 d_k [bs "EXPIRE"; bs "k"; bs "-1"]) = Some (FInt 1, empty_db).
-Proof. vm_compute. split; reflexivity. Qed.
 Example c12_parity_set_nx_xx_refuted :
   both 0 d_k [bs "SET"; bs "k"; bs "w"; bs "NX"; bs "XX"] = ((r_err, d_k), Some (r_nil, d_k)).
 Proof. vm_compute. reflexivity. Qed.
@@ -75,22 +69,9 @@ Example c12_parity_empty_key_refuted :
   fst (fst (both 0 empty_db [bs "SET"; []; bs "v"])) = r_ok /\
   snd (both 0 empty_db [bs "SET"; []; bs "v"]) = Some (r_err, empty_db).
 Proof. vm_compute. split; reflexivity. Qed.
-Example c12_parity_decrby_min_refuted :  (* -(i64::MIN) overflows in the executor: the server process dies *)
-  both 0 d_k [bs "DECRBY"; bs "n"; bs "-9223372036854775808"] = ((PANIC, d_k), Some (r_err, d_k)).
-Proof. vm_compute. reflexivity. Qed.
-Example c12_parity_ttl_refuted :         (* 100.5 s left: 101 directly, 100 through the executor *)
-  both 0 d_kt [bs "TTL"; bs "k"] = ((FInt 100, d_kt), Some (FInt 101, d_kt)).
-Proof. vm_compute. reflexivity. Qed.
-Example c12_parity_ttl_expired_refuted : (* an expired, not yet removed key: -2 directly, 0 through the executor *)
-  both 200000 d_kt [bs "TTL"; bs "k"] = ((FInt 0, d_kt), Some (FInt (-2), d_kt)).
-Proof. vm_compute. reflexivity. Qed.
 Example c12_parity_type_refuted :
   both 0 d_k [bs "TYPE"; bs "k"] = ((FBulk (bs "string"), d_k), Some (FSimple (bs "string"), d_k)).
 Proof. vm_compute. reflexivity. Qed.
-Example c12_parity_renamenx_refuted :    (* RENAMENX through the executor is RENAME: it overwrites and answers OK *)
-  fst (fst (both 0 (set_value 0 d_k (bs "j") (VStr (bs "w")) None) [bs "RENAMENX"; bs "k"; bs "j"])) = r_ok /\
-  option_map fst (snd (both 0 (set_value 0 d_k (bs "j") (VStr (bs "w")) None) [bs "RENAMENX"; bs "k"; bs "j"])) = Some (FInt 0).
-Proof. vm_compute. split; reflexivity. Qed.
 Example c12_parity_arity_refuted :
   both 0 d_k [bs "DBSIZE"; bs "x"] = ((FInt 1, d_k), Some (r_err, d_k)).
 Proof. vm_compute. reflexivity. Qed.
@@ -109,11 +90,6 @@ Example c12_parity_applies :
   forallb utf8_valid [bs "set"; bs "k"; bs "v"; bs "EX"; bs "10"] = true /\
   In (upper (bs "set")) Exec.catalogue /\ known 0 d_k (upper (bs "set")) [bs "k"; bs "v"; bs "EX"; bs "10"] = false.
 Proof. split; [vm_compute; reflexivity|]. split; [vm_compute; tauto|vm_compute; reflexivity]. Qed.
-
-(** FLUSHDB / DBSIZE / KEYS / FLUSHALL inside a script work on database 0 whatever database
-    the script runs in (execute_database reads the absent connection context) *)
-Example c12_database_commands_refuted : exists db, exec_database_db db <> db.
-Proof. exists 1. vm_compute. discriminate. Qed.
 
 (** ** the conversions
 
@@ -185,7 +161,8 @@ Proof. vm_compute. reflexivity. Qed.
 Theorem c12_script_atomic :
   forall now s c dbi parts nm,
   upper nm = bs "EVAL" -> parts = FBulk nm :: tl parts ->
-  let r := h_eval now (get_db s dbi) parts in
+  let s1 := lazy_expire now s dbi (bs "EVAL") parts in      (* the lazy expiry every command starts with *)
+  let r := h_eval now (get_db s1 dbi) parts in
   let s' := snd (normal_command now s c dbi parts None) in
   fst (normal_command now s c dbi parts None) = fst r /\
   s_conns s' = s_conns s /\ s_password s' = s_password s /\
@@ -193,12 +170,12 @@ Theorem c12_script_atomic :
   ((Z.to_nat dbi < length (s_dbs s))%nat -> get_db s' dbi = snd r).
 Proof. exact script_one_step. Qed.
 
-(** ** EVALSHA = EVAL of the cached source: holds in database 0, refuted elsewhere *)
-Theorem c12_evalsha_eq_eval_db0 :
-  forall t s c ca nm sha nk rest src,
+(** ** EVALSHA = EVAL of the cached source, in whatever database is selected (after the repair f97685e) *)
+Theorem c12_evalsha_eq_eval :
+  forall t s c dbi ca nm sha nk rest src,
   upper nm = bs "EVALSHA" -> utf8_valid sha = true -> alookup sha ca = Some src ->
-  let r1 := h_evalsha t s c 0 ca (FBulk nm :: FBulk sha :: nk :: rest) in
-  let r2 := normal_command t s c 0 (FBulk (bs "EVAL") :: FBulk src :: nk :: rest) None in
+  let r1 := h_evalsha t s c dbi ca (FBulk nm :: FBulk sha :: nk :: rest) in
+  let r2 := normal_command t s c dbi (FBulk (bs "EVAL") :: FBulk src :: nk :: rest) None in
   fst r1 = fst r2 /\ s_dbs (snd r1) = s_dbs (snd r2) /\ s_conns (snd r1) = s_conns (snd r2).
 Proof. exact evalsha_eq_eval. Qed.
 
@@ -207,12 +184,10 @@ Definition set_src : bytes :=
 Definition sha0 : bytes := bs "0000000000000000000000000000000000000000".
 Definition s_db1 : server :=
   snd (process_frame 0 (connect (init_server None) 1) 1 (FArray [FBulk (bs "SELECT"); FBulk (bs "1")]) None).
-Example c12_evalsha_eq_eval_refuted :    (* connection 1 has database 1 selected; the script writes to database 0 *)
+Example c12_evalsha_selected_db :        (* connection 1 has database 1 selected: the script writes there *)
   let r := h_evalsha 0 s_db1 1 1 [(sha0, set_src)] (bulks [bs "EVALSHA"; sha0; bs "1"; bs "k"; bs "v"]) in
-  let e := normal_command 0 s_db1 1 1 (bulks [bs "EVAL"; set_src; bs "1"; bs "k"; bs "v"]) None in
-  fst r = FBulk (bs "OK") /\ fst e = FBulk (bs "OK") /\
-  amem (bs "k") (d_data (get_db (snd r) 0)) = true /\ amem (bs "k") (d_data (get_db (snd r) 1)) = false /\
-  amem (bs "k") (d_data (get_db (snd e) 0)) = false /\ amem (bs "k") (d_data (get_db (snd e) 1)) = true.
+  fst r = FBulk (bs "OK") /\
+  amem (bs "k") (d_data (get_db (snd r) 0)) = false /\ amem (bs "k") (d_data (get_db (snd r) 1)) = true.
 Proof. vm_compute. repeat split; reflexivity. Qed.
 
 (** ** KEYS and ARGV arrive byte-for-byte: for valid UTF-8; refuted otherwise *)
